@@ -102,7 +102,44 @@ fn set_addr_index<K: KeyT>(m: &S<K>) -> StdMap<usize, usize> {
 }
 
 /// Drive a lazy set-algebra iterator with `next`: `sh=<lo>..<hi|inf> y=<k.kid,…>` in yield order.
-fn lazy<'a, K: KeyT, I: Iterator<Item = &'a K>>(mut it: I) -> String {
+/// `fold` of a clone taken after `p` calls of `next` must visit exactly what further `next` calls return
+/// (the set-algebra iterators override `fold`). Runs only under a lawful, panic-free environment and restores
+/// the callback counters, so the extra passes are invisible to the model.
+fn fold_agrees<'a, K: KeyT + 'a, I: Iterator<Item = &'a K> + Clone>(it: &I) -> bool {
+    let quiet_env = tape::with(|t| {
+        t.p.hash_mix.is_none() && t.p.eq_mix.is_none() && t.p.hpanic.is_none() && t.p.epanic.is_none()
+    });
+    if !quiet_env {
+        return true;
+    }
+    let (hc, ec) = tape::with(|t| (t.hc, t.ec));
+    let by_next: Vec<(u64, u64)> = it.clone().map(|x| (x.k(), x.id())).collect::<Vec<_>>();
+    let mut ok = true;
+    for p in [0usize, 1, by_next.len() / 2, by_next.len()] {
+        if p > by_next.len() {
+            continue;
+        }
+        let mut c = it.clone();
+        for _ in 0..p {
+            c.next();
+        }
+        let folded = c.fold(Vec::new(), |mut v, x| {
+            v.push((x.k(), x.id()));
+            v
+        });
+        if folded[..] != by_next[p..] {
+            ok = false;
+        }
+    }
+    tape::with(|t| {
+        t.hc = hc;
+        t.ec = ec;
+    });
+    ok
+}
+
+fn lazy<'a, K: KeyT + 'a, I: Iterator<Item = &'a K> + Clone>(mut it: I) -> String {
+    let fold_ok = fold_agrees(&it);
     let (lo, hi) = it.size_hint();
     let mut ys = Vec::new();
     while let Some(x) = it.next() {
@@ -114,6 +151,9 @@ fn lazy<'a, K: KeyT, I: Iterator<Item = &'a K>>(mut it: I) -> String {
     }
     if it.size_hint().1 != Some(0) {
         flags.push_str(" HINT-AFTER-END");
+    }
+    if !fold_ok {
+        flags.push_str(" FOLD-MISMATCH");
     }
     format!("sh={}..{} y={}{}", lo, hi.map_or("inf".to_string(), |h| h.to_string()), ys.join(","), flags)
 }
